@@ -68,6 +68,9 @@ type world struct {
 	mu     sync.Mutex
 	added  map[int]bool
 	broken map[int]string // share -> which protection record the simulator removed / corrupted
+	// concurrent scenario (par.go): releases are recorded by the request goroutines and judged by the scheduler
+	parMode bool
+	parRel  []parRel
 }
 
 func (w *world) boot() error {
@@ -87,6 +90,10 @@ func slotNow() phase0.Slot   { return net.Beacon.EstimatedCurrentSlot() }
 func (w *world) releasedAtt(i int, root []byte, src, tgt phase0.Epoch, how string) {
 	w.mu.Lock()
 	defer w.mu.Unlock()
+	if w.parMode {
+		w.parRel = append(w.parRel, parRel{actor: int(how[len(how)-1] - '0'), att: true, i: i, root: append([]byte(nil), root...), src: src, tgt: tgt})
+		return
+	}
 	r := hex.EncodeToString(root)
 	for _, a := range w.atts[i] {
 		if a.root == r {
@@ -107,6 +114,10 @@ func (w *world) releasedAtt(i int, root []byte, src, tgt phase0.Epoch, how strin
 func (w *world) releasedBlk(i int, root []byte, slot phase0.Slot, how string) {
 	w.mu.Lock()
 	defer w.mu.Unlock()
+	if w.parMode {
+		w.parRel = append(w.parRel, parRel{actor: int(how[len(how)-1] - '0'), i: i, root: append([]byte(nil), root...), slot: slot})
+		return
+	}
 	r := hex.EncodeToString(root)
 	for _, b := range w.blks[i] {
 		if b.slot == slot && b.root != r {
@@ -129,12 +140,14 @@ func (w *world) signAtt(i int, srcBack, tgtBack, variant int64, how string) stri
 	data := &phase0.AttestationData{Slot: phase0.Slot(tgt) * 32, Index: 1, Source: &phase0.Checkpoint{Epoch: src}, Target: &phase0.Checkpoint{Epoch: tgt}}
 	data.BeaconBlockRoot[0] = byte(variant)
 	pk := shareKey(i).GetPublicKey().Serialize()
-	missing := w.stillBroken(i, "att")
+	missing := !w.parMode && w.stillBroken(i, "att")
 	sig, root, err := w.km.SignBeaconObject(data, phase0.Domain{}, pk, spectypes.DomainAttester)
 	if err != nil || len(sig) == 0 {
 		return fmt.Sprintf("att(%d,%d) refused", src, tgt)
 	}
-	w.d.Probe("attestation-signed")
+	if !w.parMode {
+		w.d.Probe("attestation-signed")
+	}
 	if missing {
 		w.d.Violate("signed-without-protection-record", how, "share %d: attestation (%d,%d) was signed although its highest-attestation record is missing or unreadable", i, src, tgt)
 	}
@@ -169,12 +182,14 @@ func (w *world) signBlk(i int, slotBack, variant int64, how string) string {
 		obj = b
 	}
 	pk := shareKey(i).GetPublicKey().Serialize()
-	missing := w.stillBroken(i, "prop")
+	missing := !w.parMode && w.stillBroken(i, "prop")
 	sig, root, err := w.km.SignBeaconObject(obj, phase0.Domain{}, pk, spectypes.DomainProposer)
 	if err != nil || len(sig) == 0 {
 		return fmt.Sprintf("blk(%d) refused", slot)
 	}
-	w.d.Probe("block-signed")
+	if !w.parMode {
+		w.d.Probe("block-signed")
+	}
 	if missing {
 		w.d.Violate("signed-without-protection-record", how, "share %d: block for slot %d was signed although its highest-proposal record is missing or unreadable", i, slot)
 	}
@@ -269,6 +284,10 @@ func (w *world) findRecord(i int, marker string) (key []byte) {
 }
 
 func run(t *testing.T, d *sim.D) {
+	if d.Cfg.Get("par", 0) == 1 {
+		runPar(t, d)
+		return
+	}
 	synctest.Test(t, func(t *testing.T) {
 		gen0 := time.Unix(int64(net.Beacon.MinGenesisTime()), 0)
 		time.Sleep(time.Until(gen0.Add(time.Duration(1000+d.Cfg.Get("epoch0", 0)) * 32 * 12 * time.Second)))
@@ -576,9 +595,11 @@ func lockBlocked(gid string) bool {
 func genConfig(r *sim.Rand, tier string) sim.Config {
 	c := sim.Config{"steps": int64(15 + r.Intn(45)), "epoch0": int64(r.Intn(5000)), "builder": int64(r.Intn(2)), "badger": int64(r.Weighted(5, 1)),
 		"w_fault": int64(r.Intn(6)), "w_break": int64(r.Intn(3)), "w_par": 0, "warm": int64(r.Weighted(1, 3))}
-	// w_par stays 0: the concurrent-signing scenario (regime C) is built but not armed — the
-	// lock-aware scheduler is only deterministic with one P and a deadlocked signer (see parallel)
-	// cannot be abandoned inside a synctest bubble. Concurrency for C04 is therefore NOT covered.
+	if r.Intn(5) == 0 { // one run in five is the concurrent-signing scenario (par.go, outside the bubble)
+		c["par"], c["steps"] = 1, int64(6+r.Intn(14))
+	}
+	// w_par stays 0: the in-bubble concurrent step is not used (a deadlocked signer cannot be abandoned
+	// inside a synctest bubble); concurrency is explored by the separate par runs above (par.go).
 	if tier == "thorough" {
 		c["steps"] = int64(15 + r.Intn(120))
 	}
@@ -590,5 +611,5 @@ var Specs = map[string]*sim.Spec{
 		Real:        []string{"ekm.NewETHKeyManagerSigner: AddShare, RemoveShare, BumpSlashingProtection, SignBeaconObject (attestations, full and blinded blocks)", "ekm signer storage (highest attestation / proposal records, wallet, accounts)", "github.com/bloxapp/eth2-key-manager SimpleSigner + NormalProtection + HD wallet", "storage/kv in-memory Badger in 1 of 6 runs"},
 		Stub:        []string{"clock (synctest bubble; advances only by explicit steps)", "database engine sim.MemDB in 5 of 6 runs, always behind the fault-injecting wrapper", "callers (the simulator issues the key-manager calls the event handler and the runners would issue)"},
 		Rule:        "seeded histories of {add share, remove share, bump (reactivation), sign attestation(source,target<=clock), sign block(slot<=clock), advance clock, restart on the same database, operation interrupted at its k-th storage call by crash-before / crash-after / storage error then restart, protection record deleted or corrupted, two concurrent signing requests for one share interleaved at every storage call}; oracle over the whole life of each share: no two released attestations with equal target and different root, no surround pair, no two different blocks for one slot, no signature while the record is missing/unreadable. Non-trivial: >=2 signatures released; distinct = hash of (op, per-share (added, #attestations, #blocks, broken)) sequence.",
-		Assumptions: []string{"attestation targets and block slots are not beyond the clock at signing time (as duties are)", "the clock never goes backwards", "durable state = committed database writes", "a deadlock between concurrent signing requests is a diagnostic only (outside the statement)"}},
+		Assumptions: []string{"attestation targets and block slots are not beyond the clock at signing time (as duties are)", "the clock never goes backwards", "durable state = committed database writes", "a deadlock between concurrent signing requests (eth2-key-manager SimpleSigner.lock/unlock, any two overlapping same-kind requests for one share) is a diagnostic only: nothing is signed, which is what the statement asks for", "concurrent runs (1 in 5): clock handed to the key manager through its BeaconNetwork dependency, MemDB, no storage faults"}},
 }
